@@ -11,7 +11,29 @@ IDS = [0, 1, 1, 2, 3, 255, 256, 300, 65535]
 PARAMS = [0, 0, 1, 9, 10, 11, 255, 256, 1000, 65536, 2**31 - 1, 2**31, U32 - 300, U32 - 1, U32]
 
 
+BIG = 1 << 20      # JLS_BUF_DEFAULT_SIZE: the reader's initial chunk buffer
+
+
+def near_capacity_case(rng):
+    """payloads whose on-disk size (payload + pad + CRC) straddles the reader's buffer capacity: every read of such a chunk must grow
+    the buffer first (or fail with an error code), never write past it; run on the ASan build like every other case"""
+    ops = ["wopen"]
+    k = rng.randrange(1, 4)
+    for _ in range(k):
+        sz = BIG - rng.randrange(-2, 17)
+        if rng.random() < 0.7:
+            ops.append("ud %d %d g%d.%d" % (rng.randrange(0, 4096), rng.choice([1, 1, 2, 3]), sz, rng.randrange(1, 10**6)))
+        else:
+            ops.append("anno 0 %d 3f800000 1 0 %d g%d.%d" % (rng.randrange(0, 100), rng.choice([1, 2, 3]), sz, rng.randrange(1, 10**6)))
+        if rng.random() < 0.5:
+            ops.append("ud %d 1 g%d.%d" % (rng.randrange(0, 4096), rng.choice([1, 8, 100]), rng.randrange(1, 10**6)))
+    ops += ["wclose"] + (["copy"] if rng.random() < 0.3 else []) + ["ropen", "udr", "an 0 0", "udr", "rclose"]
+    return ";".join(ops), dict(dist=["near_capacity"], defined={}, threaded=False)
+
+
 def gen_case(rng, tier):
+    if rng.random() < 0.03:
+        return near_capacity_case(rng)
     threaded = rng.random() < 0.25
     ops = ["topen" if threaded else "wopen"]
     defined = {}
@@ -100,7 +122,7 @@ def run(ctx):
         ctx, PROP_FILES, gen_case, (), 400, 4000,
         "case = call sequence of 3..30 writer calls (sync or threaded writer) and 3..25 reader calls over the public API with ids from {0, defined, undefined, 255, 256, "
         "300, 65535}, definition parameters from {0,1,9,10,11,...,2^31,UINT32_MAX}, invalid type codes, windows/increments/lengths from {0,1,-1,2^40,+-2^62}, "
-        "NULL/empty/long strings, optional missing close and jls_copy; run on the ASan+UBSan+LSan build with exactly sized caller buffers in a forked child with a "
+        "NULL/empty/long strings, optional missing close and jls_copy; 3 % of the cases write payloads whose on-disk size straddles the reader's 1 MiB buffer capacity and read them back; run on the ASan+UBSan+LSan build with exactly sized caller buffers in a forked child with a "
         "20 s watchdog; oracle: no sanitizer report, signal, or time-out (every misuse must come back as an error code); distinct = script",
         classify=classify, variant="asan", exact=True, timeout=20,
         note="memory safety of the C itself is established only for the sequences run (sanitizers), not proved; libc, allocator-failure paths and uninstrumented intra-object overflows are not covered")
